@@ -106,7 +106,46 @@ def C11(ctx):
                   TRUSTED_COMMON, ["header and trailer components are set on the target message"], CHECKER)
 
 
-PROPS = {"C01": C01, "C17": C17, "C02": C02, "C18": C18, "C03": C03, "C11": C11}
+SESS_RULE = ("random histories against the real Session + DefaultHandler + memory store, both roles, random heartbeat limits: inbound Logon (in/out-of-range "
+             "heartbeat, allowed/disallowed/missing encryption, approved/refused, sequence gaps), Logout, Heartbeat, TestRequest (adversarial ids), ResendRequest "
+             "(all range shapes), application/unknown types, each optionally damaged (checksum, body length, non-numeric field, missing/non-numeric MsgSeqNum); local sends, "
+             "Logout, Stop followed by the peer's answer or the deadline; a second session on the same store. Model and implementation compared after every step "
+             "(messages, events, logged/cancelled/stopped); property oracles evaluated on the implementation's own outputs")
+
+
+def sess_runs(ctx, props, n_quick, n_thorough, ln=(30, 60)):
+    n = sizes(ctx, n_quick, n_thorough)
+    l = sizes(ctx, ln[0], ln[1])
+    for s in seeds(ctx):
+        res = run_harness(ctx, f"sess-{s}", "sess", ["-seed", str(s), "-n", str(n), "-len", str(l)])
+        fold(ctx, res, props + ["SESS"], f"session model vs real Session, seed {s}")
+
+
+def sess_prop(pid, modules, technique, assumptions, nontrivial):
+    def run(ctx):
+        if common_prelude(ctx, modules):
+            sess_runs(ctx, [pid], 120, 1500)
+        ctx.rules.append(SESS_RULE + "; non-trivial for this property = " + nontrivial)
+        return finish(ctx, "proof", technique, TRUSTED_COMMON + [
+            "timer expiries are events of the model but are not injected into the real session in this correspondence (intervals far longer than a history); they are exercised by the C08/C09 check"],
+            assumptions, CHECKER)
+    return run
+
+
+C06 = sess_prop("C06", ["Props.C06"], "Lean invariant by induction over all event histories (run_preauth / C06_*) + step-by-step correspondence with the real Session + logon oracles",
+                ["no outgoing handler refuses and the store does not fail (C19's case)"], "distinct (Logon bytes, logged-before, approve) triples")
+C07 = sess_prop("C07", ["Props.C07"], "Lean theorem C07_preauth over all histories, stores and counters + correspondence + pre-logon output oracle",
+                ["local application sends are the application's own acts"], "distinct inbound messages processed before any successful logon")
+C10 = sess_prop("C10", ["Props.C10"], "Lean theorems C10_exact/open/never_outside/gap from the store-trace invariant + correspondence + byte-identity oracle on retransmissions",
+                ["messages are not mutated by the application after sending (store keeps the object)"], "distinct (begin, end, last-sent) triples while logged on, and gap logons")
+C14 = sess_prop("C14", ["Props.C14"], "Lean theorem C14_echo + correspondence + echo oracle with adversarial TestReqIDs",
+                [], "distinct TestReqID values answered while logged on")
+C15 = sess_prop("C15", ["Props.C15"], "Lean theorems C15_* (peer logout, own logout, stop/answer, stop/deadline, cancellation permanent) + correspondence + wall-clock oracle for Stop",
+                ["wall-clock: the close deadline is observed with a tolerance of 1 s"], "peer-logout / own-logout-answer / stop-answer / stop-deadline scenarios")
+C16 = sess_prop("C16", ["Props.C16"], "Lean theorems C16_reject_* (every admin kind x every damage/state) + correspondence + reject-by-sequence-number oracle",
+                [], "distinct (damaged or not-permitted admin message, logged-before) pairs")
+
+PROPS = {"C06": C06, "C07": C07, "C10": C10, "C14": C14, "C15": C15, "C16": C16, "C01": C01, "C17": C17, "C02": C02, "C18": C18, "C03": C03, "C11": C11}
 
 
 def replay(ctx, path):
